@@ -315,6 +315,10 @@ def run(rep):
                 kw_ = m['kw']
                 if k == 'Q2' and 'W' in kw_ and 'xB' in kw_:
                     return 1 + (kw_['W'] ** 2 + Mp2) / max(abs(kw_['W'] ** 2 - Mp2), 1e-300)
+                if k == 'W' and 'xB' in kw_ and 'Q2' in kw_:
+                    # W**2 = Q2/xB - Q2 + Mp2 cancels for xB -> 1 (whatever the order in which it is summed)
+                    q, x_ = kw_['Q2'], kw_['xB']
+                    return 1 + (abs(q / x_) + abs(q) + Mp2) / max(abs(q / x_ - q + Mp2), 1e-300)
                 if k in ('xB', 'xi') and 'W' in kw_ and 'Q2' in kw_:
                     return 1 + (kw_['W'] ** 2 + Mp2) / max(abs(kw_['W'] ** 2 + kw_['Q2'] - Mp2), 1e-300)
                 return 1
